@@ -696,6 +696,103 @@ fn emit(out: &mut Out, c: &Case, tag: &str) {
     out.case(&refs, &impl_out, !c.list.is_empty() && (xff || peer_listed));
 }
 
+/// The i-th address of the long forwarded chains: all distinct, IPv4 and IPv6 mixed, in ranges no generated list uses
+/// (172.16/12 and 2001:db8:ffff::/48), in the canonical text std prints.
+fn chain_addr(i: usize) -> String {
+    if i % 5 == 2 {
+        std::net::Ipv6Addr::new(0x2001, 0xdb8, 0xffff, 0, 0, 0, ((i >> 16) & 0xffff) as u16, (i & 0xffff) as u16).to_string()
+    } else {
+        format!("172.{}.{}.{}", 16 + ((i >> 16) & 15), (i >> 8) & 255, i & 255)
+    }
+}
+
+/// Positions worth trying in a chain of `len` entries: both ends, the middle, and both sides of every power of two counted
+/// from the left and from the right (a limit on the number of hops kept, from either end, drops exactly such an entry).
+fn chain_positions(len: usize) -> Vec<usize> {
+    let mut v: Vec<usize> = vec![0, 1, 2, len / 2];
+    for k in [4usize, 8, 16, 32, 64, 128, 256, 512, 1024, 2048, 4096] {
+        for d in [k - 1, k, k + 1] {
+            v.push(d);
+            if len > d { v.push(len - 1 - d); }
+        }
+    }
+    for d in [0usize, 1, 2, 9, 10, 11, 99, 100, 101, 999, 1000, 1001] {
+        v.push(d);
+        if len > d { v.push(len - 1 - d); }
+    }
+    v.retain(|p| *p < len);
+    v.sort();
+    v.dedup();
+    v
+}
+
+/// An X-Forwarded-For value of `len` entries: `listed` at the positions `at`, distinct unlisted addresses elsewhere;
+/// `invalid_every` > 0 puts an unparsable entry at every n-th other position; `vary`: any spacing and spelling.
+fn chain_value(rng: &mut Rng, len: usize, at: &[usize], listed: &str, list: &[String], invalid_every: usize, vary: bool) -> String {
+    let base = rng.below(1 << 19) as usize;
+    let mut v = String::new();
+    let sep: &str = if vary { *rng.pick(&SEPS) } else { *rng.pick(&[",", ", "]) };
+    for i in 0..len {
+        if i > 0 {
+            v.push_str(if vary && len <= 300 { *rng.pick(&SEPS) } else { sep });
+        }
+        if at.contains(&i) {
+            v.push_str(&spell(rng, listed, vary));
+        } else if invalid_every > 0 && i % invalid_every == invalid_every - 1 {
+            v.push_str(*rng.pick(&INVALID));
+        } else {
+            let mut a = chain_addr(base + i);
+            if list.contains(&a) { a = "203.0.113.9".into(); }
+            v.push_str(&a);
+        }
+    }
+    v
+}
+
+/// Long forwarded chains: 1..5, 15..18, 31..34, 63..66, 100, ~128, ~256, 1000, 1024 (thorough: 2048, 4096) entries; the listed
+/// address far left, at the middle, far right, and on both sides of every power of two from either end; no listed address
+/// at all; two listed addresses; with and without unparsable entries; the peer unlisted (and, for a share, listed).
+fn long_chains(out: &mut Out, rng: &mut Rng, thorough: bool, have_v6: bool) {
+    let lengths: Vec<usize> = if thorough {
+        vec![1, 2, 3, 4, 5, 6, 7, 8, 9, 10, 11, 15, 16, 17, 18, 19, 20, 31, 32, 33, 34, 35, 63, 64, 65, 66, 99, 100, 101, 127, 128, 129, 130, 255, 256, 257, 258,
+             500, 511, 512, 513, 999, 1000, 1001, 1023, 1024, 1025, 2048, 4096]
+    } else {
+        vec![1, 2, 3, 4, 5, 15, 16, 17, 18, 31, 32, 33, 34, 63, 64, 65, 66, 100, 128, 129, 256, 257, 1000, 1024]
+    };
+    let mut counter = 0usize;
+    for len in lengths {
+        let mut plans: Vec<Vec<usize>> = chain_positions(len).into_iter().map(|p| vec![p]).collect();
+        plans.push(vec![]);                                   // nobody listed: served
+        if len >= 2 { plans.push(vec![0, len - 1]); }         // both ends listed
+        for at in plans {
+            let variants: &[(usize, bool)] = if thorough && len < 2000 { &[(0, false), (0, true), (3, false), (7, true)] } else if thorough { &[(0, false), (7, true)] } else { &[(0, false), (5, true)] };
+            for (invalid_every, vary) in variants {
+                for mode in ["block", "forbidden"] {
+                    counter += 1;
+                    // quick: the two modes alternate over the plans instead of doubling them for the long chains
+                    if !thorough && len > 300 && counter % 2 == 0 { continue; }
+                    let peer = PEERS[counter % PEERS.len()];
+                    if peer.contains(':') && !have_v6 { continue; }
+                    // the peer is unlisted except in one case out of 16
+                    let kinds = list_kinds(peer);
+                    let list = if counter % 16 == 7 { kinds[4].1.clone() } else { kinds[2 + counter % 2].1.clone() };
+                    let candidates: Vec<String> = list.iter().filter(|a| *a != peer).cloned().collect();
+                    let listed = candidates[counter / 2 % candidates.len()].clone();
+                    let (route, uri) = ROUTE_URIS[counter % ROUTE_URIS.len()];
+                    let specs = cache_specs(route, counter % 2);
+                    let (tag, cache) = specs[counter / 3 % specs.len()].clone();
+                    let value = chain_value(rng, len, &at, &listed, &list, *invalid_every, *vary);
+                    let req = build_request(rng, uri, Some(&value), &list, *vary, false);
+                    let c = Case { mode: mode.into(), list, peer: peer.into(), route: route.into(), cache, req };
+                    out.count(&format!("chain: {} entries, listed {}", match len { 0..=5 => "1-5", 6..=20 => "6-20", 21..=66 => "31-66", 67..=300 => "99-258", _ => "500+" },
+                        if at.is_empty() { "nowhere" } else if at.len() > 1 { "twice" } else if at[0] * 2 < len.saturating_sub(1) { "left half" } else if at[0] * 2 == len - 1 { "middle" } else { "right half" }));
+                    emit(out, &c, tag);
+                }
+            }
+        }
+    }
+}
+
 fn unlisted_pool(list: &[String]) -> Vec<String> {
     let mut v: Vec<String> = OTHERS.iter().chain(PEERS.iter()).map(|s| s.to_string()).filter(|a| !list.contains(a)).collect();
     v.push("203.0.113.9".into());
@@ -783,6 +880,9 @@ pub fn gen(out: &mut Out, thorough: bool, seed: u64) {
         let c = Case { mode: if rng.chance(1, 2) { "block".into() } else { "forbidden".into() }, list, peer: peer.into(), route: route.into(), cache, req };
         emit(out, &c, tag);
     }
+    // ---- long forwarded chains (own generator state: the cases above do not move when this block changes)
+    let mut crng = Rng::new(seed ^ 0xC19_C4A1);
+    long_chains(out, &mut crng, thorough, have_v6);
     // ---- end to end: the real binary
     let built = build_binary();
     match (built, humphrey_binary()) {
@@ -834,12 +934,24 @@ fn e2e(out: &mut Out, rng: &mut Rng, thorough: bool, have_v6: bool) {
         }
         plan.push((if rng.chance(1, 2) { "block" } else { "forbidden" }, peer, rng.below(6) as usize, rng.below(7) as usize, rng.below(12) as usize));
     }
+    // shapes 100 + k: a long chain (see `long_chains`) of E2E_CHAINS[k].0 entries with the listed address at E2E_CHAINS[k].1
+    const E2E_CHAINS: [(usize, usize); 8] = [(17, 0), (18, 1), (33, 0), (100, 0), (100, 50), (257, 0), (1000, 0), (1000, 983)];
+    for k in 0..(if thorough { 16 } else { 4 }) {
+        let k = if thorough { k } else { [0usize, 3, 6, 7][k] };
+        plan.push((["block", "forbidden"][k % 2], "127.0.0.1", 3, [0usize, 1, 5, 6][k / 2 % 4], 100 + k % 8));
+    }
     for (mode, peer, kind, ri, shape) in plan {
         let list = list_kinds(peer)[kind].1.clone();
         let unlisted = unlisted_pool(&list);
         let (route, uri) = ROUTE_URIS[ri];
         let cache = if ri % 2 == 0 { CacheSpec { limit: 4096, tl: 60, now: 0, host: 0, prime: None } } else { CacheSpec { limit: 0, tl: 0, now: 0, host: 0, prime: None } };
-        let xff = xff_value(rng, shape, &list, &unlisted, true);
+        let xff = if shape >= 100 {
+            let (len, at) = E2E_CHAINS[shape - 100];
+            let listed = list[shape % list.len()].clone();
+            Some(chain_value(rng, len, &[at], &listed, &list, 0, false))
+        } else {
+            xff_value(rng, shape, &list, &unlisted, true)
+        };
         let req = build_request(rng, uri, xff.as_deref(), &list, true, true);
         let c = Case { mode: mode.into(), list, peer: peer.into(), route: route.into(), cache, req };
         let f = match fields(&c, "bl_e2e") {
